@@ -290,10 +290,11 @@ theorem parseOne_l2_inv (cls : String) (b : Bytes) (x : Obj) (i : Inner) (h : pa
 
 /-- … and a RawPDU only at the entry point `RawPDU` -/
 theorem parseOne_raw_inv (cls : String) (b : Bytes) (p : Bytes) (i : Inner) (h : parseOne cls b = .ok (.raw p, i)) :
-    i = .none := by
+    cls = "RawPDU" ∧ i = .none := by
   unfold parseOne at h
   split at h
-  · injection h with h; injection h with _ h2; exact h2.symm
+  · rename_i hc
+    injection h with h; injection h with _ h2; exact ⟨by simpa using hc, h2.symm⟩
   · exfalso
     have wrap : ∀ {α} (X : Out (α × Inner)) (f : α → AnyObj), (∀ a q, f a ≠ .raw q) →
         (X >>= fun (o, j) => pure (f o, j)) ≠ .ok (.raw p, i) := by
@@ -321,5 +322,110 @@ theorem parseOne_raw_inv (cls : String) (b : Bytes) (p : Bytes) (i : Inner) (h :
               · split at h
                 · exact wrap _ AnyObj.wifi (fun _ _ hh => by cases hh) h
                 · cases h
+
+/-- layers of the family that can be serialized, and RawPDU -/
+def L2Ser : AnyObj → Prop
+  | .raw _ => True
+  | .l2 x => Serializable x
+  | _ => False
+
+/-- the first layer of a parsed chain is of the class whose constructor was called -/
+def HeadOf (cls : String) : AnyObj → Prop
+  | .raw _ => cls = "RawPDU"
+  | .l2 y => (info y).1 = cls
+  | _ => True
+
+theorem noAppend_cons (x : Obj) (r : List AnyObj) (hx : NoAppendObj x) (hr : NoAppend r) : NoAppend (.l2 x :: r) := by
+  cases x <;> first | exact hr | exact ⟨hx, hr⟩
+
+/-- **what libtins accepts is representable**: a chain the nested parsing constructors build — as far as it consists of
+    serializable layers of the family and RawPDU — is `Stackable`, and none of its Dot1Q layers pads -/
+theorem parse_stackable : ∀ (fuel : Nat) (cls : String) (b : Bytes) (os : List AnyObj),
+    parseChain fuel cls b = .ok os → (∀ o ∈ os, L2Ser o) →
+    Stackable os ∧ NoAppend os ∧ ∃ h t, os = h :: t ∧ HeadOf cls h := by
+  intro fuel
+  induction fuel with
+  | zero => intro cls b os h; simp [parseChain] at h
+  | succ f ih =>
+    intro cls b os h hall
+    unfold parseChain at h
+    by_cases hm : modelled cls = true
+    · simp only [hm, Bool.not_true, Bool.false_eq_true, if_false] at h
+      cases hp : parseOne cls b with
+      | throw e => rw [hp] at h; cases h
+      | fault s => rw [hp] at h; cases h
+      | ok r =>
+        obtain ⟨o, inner⟩ := r
+        rw [hp] at h
+        simp only at h
+        -- the first layer
+        have hfirst : ∀ rest, os = o :: rest →
+            (∃ x, o = .l2 x ∧ ObjInv x ∧ LinkInner x inner ∧ (info x).1 = cls ∧ NoAppendObj x) ∨
+            (∃ p, o = .raw p ∧ cls = "RawPDU" ∧ inner = .none) := by
+          intro rest hos
+          have ho : L2Ser o := hall o (by rw [hos]; exact List.mem_cons_self)
+          cases o with
+          | raw p => exact .inr ⟨p, rfl, parseOne_raw_inv cls b p inner hp⟩
+          | l2 x =>
+            have h1 := parseOne_l2_inv cls b x inner hp
+            have h2 := l2_parse_link cls b x inner h1.1 h1.2 ho
+            exact .inl ⟨x, rfl, l2_parse_inv cls b x inner h1.1 h1.2, h2.1, h2.2.1, h2.2.2⟩
+          | ip _ => exact ho.elim
+          | ip6 _ => exact ho.elim
+          | icmp _ => exact ho.elim
+          | tr _ => exact ho.elim
+          | app _ => exact ho.elim
+          | wifi _ => exact ho.elim
+        cases inner with
+        | none =>
+          injection h with h
+          subst h
+          rcases hfirst [] rfl with ⟨x, rfl, hinv, hl, hc, hna⟩ | ⟨p, rfl, hc, _⟩
+          · exact ⟨⟨hinv, hl, trivial⟩, noAppend_cons x [] hna trivial, _, _, rfl, hc⟩
+          · exact ⟨rfl, trivial, _, _, rfl, hc⟩
+        | raw pb =>
+          injection h with h
+          subst h
+          rcases hfirst [.raw pb] rfl with ⟨x, rfl, hinv, hl, hc, hna⟩ | ⟨p, rfl, _, hi⟩
+          · exact ⟨⟨hinv, hl, rfl⟩, noAppend_cons x _ hna trivial, _, _, rfl, hc⟩
+          · cases hi
+        | cls name pb fb =>
+          simp only at h
+          cases hrec : parseChain f name pb with
+          | ok ls =>
+            rw [hrec] at h
+            injection h with h
+            subst h
+            rcases hfirst ls rfl with ⟨x, rfl, hinv, hl, hc, hna⟩ | ⟨p, rfl, _, hi⟩
+            · rcases ih name pb ls hrec (fun o ho => hall o (List.mem_cons_of_mem _ ho)) with ⟨hst, hno, hd, t, rfl, hhd⟩
+              obtain ⟨_, hnr, hlk⟩ := hl
+              have hdS : L2Ser hd := hall hd (List.mem_cons_of_mem _ List.mem_cons_self)
+              refine ⟨⟨hinv, ?_, hst⟩, noAppend_cons x _ hna hno, _, _, rfl, hc⟩
+              cases hd with
+              | raw p => exact absurd hhd hnr
+              | l2 y => exact hlk y t hhd
+              | ip _ => exact hdS.elim
+              | ip6 _ => exact hdS.elim
+              | icmp _ => exact hdS.elim
+              | tr _ => exact hdS.elim
+              | app _ => exact hdS.elim
+              | wifi _ => exact hdS.elim
+            · cases hi
+          | unmodelled c => rw [hrec] at h; cases h
+          | fault s => rw [hrec] at h; cases h
+          | throw e =>
+            rw [hrec] at h
+            simp only at h
+            split at h
+            · injection h with h
+              subst h
+              rcases hfirst [.raw pb] rfl with ⟨x, rfl, hinv, hl, hc, hna⟩ | ⟨p, rfl, _, hi⟩
+              · rename_i hfb
+                rw [hl.1] at hfb
+                simp at hfb
+              · cases hi
+            · cases h
+    · have : modelled cls = false := by simpa using hm
+      simp [this] at h
 
 end Tins.Wire.L2
